@@ -43,9 +43,74 @@ def siblings_case(g):
     extra = T - nsib * na - pad        # samples of the prefix-named segment, if any
     cands = [n for n in {2, na + 1, max(2, (T - extra) // nsib - 1), (T - extra) // nsib + 2, T} if nsib * n + extra != T]
     # (never filling the time up to the wait exactly: whether t - elapsed is 0 or a rounding error below 0 is a tie)
+    if r.random() < 0.6:
+        # one sibling edited alone, then all of them set to the value the FIRST one already has: every sibling gets it
+        # (seeded C04-m17: the edit stopped at the first sibling that needed no change)
+        ops += [{"op": "el.changeDur", "id": "es", "ch": 1, "name": "a2", "dur": enc((na + 1) / SR), "all": False},
+                {"op": "el.getArrays", "id": "es", "time": True},
+                {"op": "el.changeDur", "id": "es", "ch": 1, "name": "a", "dur": enc(na / SR), "all": True},
+                {"op": "el.getArrays", "id": "es", "time": True}, {"op": "el.duration", "id": "es"}]
     for n in r.sample(sorted(cands), min(3, len(cands))):
         ops += [{"op": "el.changeDur", "id": "es", "ch": 1, "name": r.choice(["a", "a2"]), "dur": enc(n / SR), "all": True},
                 {"op": "el.getArrays", "id": "es", "time": True}, {"op": "el.duration", "id": "es"}, {"op": "el.points", "id": "es"}]
+    return ops
+
+
+def direct(seed, tier, model, stats):
+    """on the implementation alone, at the closed form the theorem `wait_end_to_end` states: paddings of more than a million
+    samples (a millisecond at GSa/s rates) - too long to ship through the model driver sample by sample: the forged waveform
+    and both marker arrays have round(t*SR) + n_after samples, the padding is zero, the next block starts at round(t*SR)"""
+    import random
+    from core import BluePrint, Element, PA as PulseAtoms
+    r = random.Random(seed * 7919 + 4)
+    fails = []
+    n_checks = 0
+    for SR, T in ([(1.2e9, 1_200_000), (1e9, 1_048_577)] if tier == "quick" else
+                  [(1.2e9, 1_200_000), (1e9, 1_048_577), (2.4e9, 2_400_000), (1e9, 1_048_576), (25e9, 3_000_000)]):
+        n_checks += 1
+        na, nb = r.randint(2, 1200), r.randint(2, 1200)
+        bp = BluePrint()
+        bp.insertSegment(-1, PulseAtoms.ramp, (0.5, 1), dur=na / SR)
+        bp.insertSegment(-1, "waituntil", ((na + T) / SR,))
+        bp.insertSegment(-1, PulseAtoms.ramp, (1, 0.25), dur=nb / SR)
+        bp.setSR(SR)
+        e = Element()
+        e.addBluePrint(1, bp)
+        try:
+            arr = e.getArrays()[1]
+        except Exception as ex:      # noqa: BLE001
+            fails.append({"what": f"forging a wait of {T} samples at {SR} Sa/s raised {type(ex).__name__}: {str(ex)[:160]}", "call": "Element.getArrays"})
+            break
+        w = np.asarray(arr["wfm"], float)
+        d = None
+        if len(w) != na + T + nb or len(arr["m1"]) != len(w) or len(arr["m2"]) != len(w):
+            d = (f"wait until sample {na + T} at {SR} Sa/s between segments of {na} and {nb} samples: waveform has {len(w)} samples, "
+                 f"markers {len(arr['m1'])}/{len(arr['m2'])}, expected {na + T + nb}")
+        elif np.any(w[na:na + T] != 0) or w[na + T] != 1.0 or w[na - 1] == 0:
+            d = f"wait until sample {na + T} at {SR} Sa/s: the padding is not zero up to the wait time or the next segment does not start there"
+        elif int(e.points) != na + T + nb:
+            d = f"Element.points is {e.points}, the forged waveform has {len(w)} samples"
+        if d:
+            fails.append({"what": d, "call": f"BluePrint [ramp {na} samples, waituntil {(na + T) / SR!r}, ramp {nb} samples] at SR {SR!r}; Element.getArrays()"})
+            break
+    stats["cases"] += n_checks
+    stats["nontrivial"] += n_checks
+    return fails
+
+
+def long_wait_case(g):
+    """a wait that fills more than a million samples (a millisecond at GSa/s rates): the element's point count and duration
+    include all of the filled time.  Only the queries run; nothing this long is compared sample by sample."""
+    r = g.r
+    SR, T = r.choice([(1.2e9, 1_200_000), (2.4e9, 1_100_000), (1e9, 1_048_577), (1e9, 1_048_576 + 1200)])
+    na, nb = r.randint(2, 1200), r.randint(2, 1200)
+    ops = [{"op": "bp.new", "id": "b"},
+           {"op": "bp.insert", "id": "b", "pos": -1, "fn": "ramp", "args": [enc(0), enc(1)], "dur": enc(na / SR), "name": None},
+           {"op": "bp.insert", "id": "b", "pos": -1, "fn": "waituntil", "args": [enc((T + na) / SR)], "dur": None, "name": None},
+           {"op": "bp.insert", "id": "b", "pos": -1, "fn": "ramp", "args": [enc(1), enc(0)], "dur": enc(nb / SR), "name": None},
+           {"op": "bp.setSR", "id": "b", "SR": enc(SR)}, {"op": "bp.points", "id": "b"}, {"op": "bp.duration", "id": "b"},
+           {"op": "el.new", "id": "el"}, {"op": "el.addBP", "id": "el", "ch": 1, "bp": "b"},
+           {"op": "el.validate", "id": "el"}, {"op": "el.points", "id": "el"}, {"op": "el.duration", "id": "el"}]
     return ops
 
 
@@ -53,6 +118,8 @@ def case(g, tier, ci):
     r = g.r
     if ci % 12 == 5:
         return siblings_case(g)
+    if ci % 50 == 23:
+        return long_wait_case(g)
     SR = g.sr([1, 7, 100, 2.5, 1e3, 1e6, 1e9, 30, 12345.678])
     ops = [{"op": "bp.new", "id": "b"}]
     k = r.randint(2, 6)
